@@ -188,4 +188,126 @@ theorem handleConn_nodone (dec : Bytes → Bool) (max : Nat) :
         | nil => simp [handleConn, readMsgFromTCP, h1, h2, hp, admission]
         | cons y ys => simp [handleConn, readMsgFromTCP, h1, h2, hp, admission]
 
+
+/-- ping-pong schedule (the previous handler always finished, at most one was running): with a limit
+    of at least one every decodable frame is handed to a handler, none is REFUSED -/
+theorem handleConn_pingpong (dec : Bytes → Bool) (max : Nat) (hmax : 1 ≤ max) :
+    ∀ (fuel i : Nat) (cs : Chunks) (running : Nat), running ≤ 1 → cs.flatten.length < fuel →
+      (handleConn dec max (fun _ => 1) (fun _ => false) fuel i cs running).1 =
+          ((parse cs.flatten).1.takeWhile dec).map Event.query := by
+  intro fuel
+  induction fuel with
+  | zero => intro i cs r _ h; omega
+  | succ fuel ih =>
+    intro i cs running hrun hlen
+    match hS : cs.flatten with
+    | [] =>
+      have h1 := readFull_short cs 2 [] (by rw [hS]; simp)
+      rw [hS] at h1
+      simp [handleConn, readMsgFromTCP, h1, parse_short]
+    | [x] =>
+      have h1 := readFull_short cs 2 [] (by rw [hS]; simp)
+      rw [hS] at h1
+      simp [handleConn, readMsgFromTCP, h1, parse_short]
+    | a :: b :: t =>
+      obtain ⟨cs1, h1, h1f⟩ := readFull_ok cs 2 [] (by rw [hS]; simp)
+      rw [hS] at h1 h1f
+      simp only [List.nil_append, List.take_succ_cons, List.take_zero, List.drop_succ_cons, List.drop_zero] at h1 h1f
+      by_cases hc : rd16 a b ≤ t.length
+      · obtain ⟨cs2, h2, h2f⟩ := readFull_ok cs1 (rd16 a b) [] (by rw [h1f]; exact hc)
+        rw [h1f] at h2 h2f
+        simp only [List.nil_append] at h2
+        have hp := parse_complete a b t hc
+        by_cases hd : dec (t.take (rd16 a b)) = true
+        · have hlen2 : cs2.flatten.length < fuel := by
+            rw [h2f]; rw [hS] at hlen; simp at hlen ⊢; omega
+          have hrm : readMsgFromTCP dec cs = .msg (t.take (rd16 a b)) cs2 := by
+            simp [readMsgFromTCP, h1, h2, hd]
+          have hz : running - 1 = 0 := by omega
+          have hadm : ¬ (0 + 1 > max) := by omega
+          have g1 := ih (i + 1) cs2 (0 + 1) (by omega) hlen2
+          rw [h2f] at g1
+          simp [handleConn, hrm, hz, hadm, g1, hp, List.takeWhile_cons, hd]
+        · have hd' : dec (t.take (rd16 a b)) = false := by simpa using hd
+          have hrm : readMsgFromTCP dec cs = .invalid (2 + (t.take (rd16 a b)).length) := by
+            simp [readMsgFromTCP, h1, h2, hd']
+          simp [handleConn, hrm, hp, List.takeWhile_cons, hd']
+      · have hlt : t.length < rd16 a b := by omega
+        have h2 := readFull_short cs1 (rd16 a b) [] (by rw [h1f]; exact hlt)
+        rw [h1f] at h2
+        have hp := parse_incomplete a b t hlt
+        cases t with
+        | nil => simp [handleConn, readMsgFromTCP, h1, h2, hp]
+        | cons y ys => simp [handleConn, readMsgFromTCP, h1, h2, hp]
+
+
+theorem admissionS_refused (max : Nat) (done : Nat → Nat) (lim : Nat → Bool) (i running : Nat)
+    (f : Bytes) (fs : List Bytes) (h : (running - done i + 1 > max || lim i) = true) :
+    admissionS max done lim i running (f :: fs) =
+      .refused f :: admissionS max done lim (i + 1) (running - done i) fs := by
+  simp only [admissionS, h, if_true]
+
+theorem admissionS_query (max : Nat) (done : Nat → Nat) (lim : Nat → Bool) (i running : Nat)
+    (f : Bytes) (fs : List Bytes) (h : ¬ (running - done i + 1 > max || lim i) = true) :
+    admissionS max done lim i running (f :: fs) =
+      .query f :: admissionS max done lim (i + 1) (running - done i + 1) fs := by
+  simp only [admissionS, h]
+  simp
+
+/-- ★ for every completion schedule and limiter behaviour the admission decisions of `handleConn` are
+    those of the reference counter `admissionS` -/
+theorem handleConn_sched (dec : Bytes → Bool) (max : Nat) (done : Nat → Nat) (lim : Nat → Bool) :
+    ∀ (fuel i : Nat) (cs : Chunks) (running : Nat), cs.flatten.length < fuel →
+      (handleConn dec max done lim fuel i cs running).1 =
+          admissionS max done lim i running ((parse cs.flatten).1.takeWhile dec) := by
+  intro fuel
+  induction fuel with
+  | zero => intro i cs r h; omega
+  | succ fuel ih =>
+    intro i cs running hlen
+    match hS : cs.flatten with
+    | [] =>
+      have h1 := readFull_short cs 2 [] (by rw [hS]; simp)
+      rw [hS] at h1
+      simp [handleConn, readMsgFromTCP, h1, parse_short, admissionS]
+    | [x] =>
+      have h1 := readFull_short cs 2 [] (by rw [hS]; simp)
+      rw [hS] at h1
+      simp [handleConn, readMsgFromTCP, h1, parse_short, admissionS]
+    | a :: b :: t =>
+      obtain ⟨cs1, h1, h1f⟩ := readFull_ok cs 2 [] (by rw [hS]; simp)
+      rw [hS] at h1 h1f
+      simp only [List.nil_append, List.take_succ_cons, List.take_zero, List.drop_succ_cons, List.drop_zero] at h1 h1f
+      by_cases hc : rd16 a b ≤ t.length
+      · obtain ⟨cs2, h2, h2f⟩ := readFull_ok cs1 (rd16 a b) [] (by rw [h1f]; exact hc)
+        rw [h1f] at h2 h2f
+        simp only [List.nil_append] at h2
+        have hp := parse_complete a b t hc
+        by_cases hd : dec (t.take (rd16 a b)) = true
+        · have hlen2 : cs2.flatten.length < fuel := by
+            rw [h2f]; rw [hS] at hlen; simp at hlen ⊢; omega
+          have hrm : readMsgFromTCP dec cs = .msg (t.take (rd16 a b)) cs2 := by
+            simp [readMsgFromTCP, h1, h2, hd]
+          by_cases hadm : (running - done i + 1 > max || lim i) = true
+          · have g1 := ih (i + 1) cs2 (running - done i) hlen2
+            rw [h2f] at g1
+            simp only [handleConn, hrm, hadm, if_true, g1, hp, List.takeWhile_cons, hd]
+            rw [admissionS_refused _ _ _ _ _ _ _ hadm]
+          · have g1 := ih (i + 1) cs2 (running - done i + 1) hlen2
+            rw [h2f] at g1
+            simp only [handleConn, hrm, hadm, g1, hp, List.takeWhile_cons, hd, if_true, Bool.false_eq_true,
+              if_false]
+            rw [admissionS_query _ _ _ _ _ _ _ hadm]
+        · have hd' : dec (t.take (rd16 a b)) = false := by simpa using hd
+          have hrm : readMsgFromTCP dec cs = .invalid (2 + (t.take (rd16 a b)).length) := by
+            simp [readMsgFromTCP, h1, h2, hd']
+          simp [handleConn, hrm, hp, List.takeWhile_cons, hd', admissionS]
+      · have hlt : t.length < rd16 a b := by omega
+        have h2 := readFull_short cs1 (rd16 a b) [] (by rw [h1f]; exact hlt)
+        rw [h1f] at h2
+        have hp := parse_incomplete a b t hlt
+        cases t with
+        | nil => simp [handleConn, readMsgFromTCP, h1, h2, hp, admissionS]
+        | cons y ys => simp [handleConn, readMsgFromTCP, h1, h2, hp, admissionS]
+
 end MosVerif.Framing
